@@ -14,7 +14,16 @@ AMBIG = ['', 'true', 'True', 'false', 'yes', 'no', 'on', 'off', 'y', 'n', '1', '
          '\ufffd', '\ufffe', '\uffff', '\U0001f600', '\ud7ff', '\ue000', '\U0010ffff',
          '---', '--- a', '...', 'a\n---\nb', 'a\n...\nb', 'key: value', 'x' * 100,
          ('word ' * 30).strip(), 'a' * 90 + ' ' + 'b' * 90, 'l1\n' + 'w ' * 60,
-         'abc', 'hello world', 'x', 'plain']
+         'abc', 'hello world', 'x', 'plain'] + ['NO', 'Yes', 'ON', '190:20:30', '012', '0b101', '.5', '+.inf']
+# plain scalars that YAML 1.1 resolves to bool / int / float but YAML 1.2 keeps as strings
+YAML11 = ['yes', 'no', 'on', 'off', 'y', 'N', 'NO', 'Yes', 'ON', 'Off', '1:30', '190:20:30', '0o17', '012',
+          '1_000', '0b101', '1e3', '.5', '+.inf', '0x_1f', '1_0.5']
+PRE_DOCS = {
+    'yaml': ['%YAML 1.1\n---\nname: old settings\nlevel: 3\n', '%YAML 1.1\n---\n- yes\n- 1:30\n',
+             '%YAML 1.2\n---\na: 1\n', 'x: yes\ny: [1, 2]\n', '%YAML 1.1\n---\nk: v\n'],
+    'json': ['{"legacy": true}', '[1, 2, 3]'],
+    'toml': ['legacy = true\n[t]\nx = 1\n'],
+}
 NEL = ['a\x85b', '\x85', 'x\x85', '\x85 y', 'line\x85next line']
 DQFOLD = ['a' * 76 + '\x1b' + 'a a', 'b' * 70 + '\x7f' + 'cc dd ee', '\x01' + 'w' * 80 + ' x y',
           'k' * 60 + '\t' + 'k' * 30 + ' tail end']
@@ -227,6 +236,17 @@ def gen_wf(rng, fmt):
         case.pop('key', None)
     if fmt != 'toml':
         case['enc'] = enc
+    # history: an EARLIER, unrelated document is fetched in the same process first
+    if rng.random() < (0.10 if fmt == 'yaml' else 0.03):
+        case['pre'] = [rng.choice(PRE_DOCS[fmt]) for _ in range(rng.choice([1, 1, 2]))]
+        if fmt == 'yaml' and 'payload' in case and isinstance(case['payload'], dict) and 'd' in case['payload']:
+            have = {k for k, _ in case['payload']['d'] if isinstance(k, (str, int, type(None)))}
+            for i in range(rng.randrange(1, 5)):
+                k = rng.choice(['answer', 'switch', 'ratio', 'mode', rng.choice(YAML11)])
+                if k not in have:
+                    have.add(k)
+                    v = rng.choice(YAML11)
+                    case['payload']['d'].append([k, v if rng.random() < 0.7 else {'l': [v, rng.choice(YAML11)]}])
     case['parser'] = rng.random() < 0.5
     if case.get('enc') not in (None, 'utf-8'):
         case['parser'] = False          # the context parsers always read with the default encoding
